@@ -34,8 +34,9 @@
 #include <unistd.h>
 #include <sys/syscall.h>
 #include <sys/file.h>
+#include <signal.h>
 
-enum { MODE_OFF = 0, MODE_TRACE = 1, MODE_FORCE = 2, MODE_PARK = 3 };
+enum { MODE_OFF = 0, MODE_TRACE = 1, MODE_FORCE = 2, MODE_PARK = 3, MODE_REENTER = 4 };
 #define MAXSCHED 65536
 
 static int g_mode = MODE_OFF;
@@ -51,6 +52,7 @@ static void *g_mutex = NULL, *g_once = NULL;
 static int g_park_k = 0;
 static volatile int g_parked = 0, g_released = 0, g_main_lock_attempt = 0, g_fork_returned = 0, g_acq_count = 0;
 static int g_grace_ms = 150;
+static volatile int g_quiet = 0;          /* the recorder logs nothing (fork stress) */
 static volatile int g_main_waits = 0;    /* the forking thread asked for a lock the parked thread holds */
 #define MAXHELD 64
 static void *volatile g_held[MAXHELD];   /* locks currently held by logical thread 1 (PARK mode) */
@@ -120,6 +122,7 @@ int sched_mismatch(void) { return g_mismatch; }
 int sched_pos(void) { return g_pos; }
 void sched_detach(void) { my_id = -1; g_mode = MODE_OFF; }     /* used in forked children: no control any more */
 void sched_trace(const char *line) { tr("%s\n", line); }
+void sched_quiet(int q) { g_quiet = q; }
 
 /* a sync point of kind `kind` ('S' call start, 'O' once, 'L' lock, 'U' unlock, 'X' thread end) */
 static void sync_point(char kind, const char *site) {
@@ -162,6 +165,15 @@ static void main_attempt(void *l) {
 static void acquired(char kind, void *l, void *ra) {
     if (my_id < 0) return;
     if (g_mode == MODE_TRACE) { tr("acq\t%d\t%d\t%c\t%s\n", __atomic_fetch_add(&g_seq, 1, __ATOMIC_SEQ_CST), my_id, kind, site_of(ra)); return; }
+    if (g_mode == MODE_REENTER) {
+        /* (C10) a signal arrives on logical thread 1 right after its k-th acquisition of the repository mutex: its handler (the caller's) forks */
+        if (my_id == 1 && kind == 'm' && __atomic_add_fetch(&g_acq_count, 1, __ATOMIC_SEQ_CST) == g_park_k) {
+            tr("signal\t%d\t%s\n", g_park_k, site_of(ra));
+            raise(SIGUSR1);
+            tr("signal-handler-returned\t%d\n", g_park_k);
+        }
+        return;
+    }
     if (g_mode != MODE_PARK || my_id != 1) return;
     held_add(l);
     if (g_parked || __atomic_add_fetch(&g_acq_count, 1, __ATOMIC_SEQ_CST) != g_park_k) return;
@@ -181,7 +193,7 @@ int pthread_mutex_lock(pthread_mutex_t *m) {
     resolve();
     if (g_mode == MODE_OFF) return real_lock(m);
     int is_repo = g_mutex && (void *) m == g_mutex;
-    if (g_mode == MODE_PARK) {
+    if (g_mode == MODE_PARK || g_mode == MODE_REENTER) {
         main_attempt(m);
         int r = real_lock(m);
         if (r == 0) acquired(is_repo ? 'm' : 'M', m, __builtin_return_address(0));
@@ -196,6 +208,8 @@ int pthread_mutex_lock(pthread_mutex_t *m) {
 
 int pthread_mutex_trylock(pthread_mutex_t *m) {
     resolve();
+    /* a trylock of the repository mutex is a lock boundary like a lock (scheduled only when the model says the mutex is free) */
+    if ((g_mode == MODE_TRACE || g_mode == MODE_FORCE) && g_mutex && (void *) m == g_mutex) sync_point('L', site_of(__builtin_return_address(0)));
     int r = real_trylock(m);
     if (g_mode != MODE_OFF && r == 0) acquired((g_mutex && (void *) m == g_mutex) ? 'm' : 'M', m, __builtin_return_address(0));
     return r;
@@ -204,7 +218,7 @@ int pthread_mutex_trylock(pthread_mutex_t *m) {
 int pthread_mutex_unlock(pthread_mutex_t *m) {
     resolve();
     if (g_mode == MODE_OFF) return real_unlock(m);
-    if (g_mode == MODE_PARK) { released_lock(m); return real_unlock(m); }
+    if (g_mode == MODE_PARK || g_mode == MODE_REENTER) { released_lock(m); return real_unlock(m); }
     if ((void *) m != g_mutex || !g_mutex) return real_unlock(m);
     sync_point('U', site_of(__builtin_return_address(0)));
     return real_unlock(m);
@@ -238,7 +252,7 @@ int flock(int fd, int op) {
 
 int pthread_once(pthread_once_t *ctl, void (*fn)(void)) {
     resolve();
-    if (g_mode == MODE_OFF || g_mode == MODE_PARK || (void *) ctl != g_once || !g_once) return real_once(ctl, fn);
+    if (g_mode == MODE_OFF || g_mode == MODE_PARK || g_mode == MODE_REENTER || (void *) ctl != g_once || !g_once) return real_once(ctl, fn);
     sync_point('O', site_of(__builtin_return_address(0)));
     return real_once(ctl, fn);
 }
@@ -251,6 +265,7 @@ static void hex_into(char *out, size_t cap, size_t *j, const char *s) {
     for (; *s && *j + 2 < cap; s++) { out[(*j)++] = hx[(unsigned char) *s >> 4]; out[(*j)++] = hx[(unsigned char) *s & 15]; }
 }
 static int record_exec(const char *api, const char *path, char *const argv[]) {
+    if (g_quiet) { errno = ENOENT; return -1; }
     char buf[8192]; size_t j = 0;
     j += (size_t) snprintf(buf, sizeof buf, "real\t%d\t%d\t%s\t", my_id, my_call, api);
     hex_into(buf, sizeof buf - 2, &j, path);
